@@ -8,7 +8,7 @@
 (* by narrow exception predicates KF_C05_n so that TLC goes on past them.  *)
 (* Emit prints every sequence with its predicted outcome class.            *)
 EXTENDS GherkinParser, TLC, Json
-CONSTANTS MaxLen, NB, Alphabet         \* Alphabet: sequence of [code, ln]
+CONSTANTS MaxLen, NB, Alphabet, EmitMod    \* Alphabet: sequence of [code, ln]; sequences of full length: 1 of EmitMod is emitted
 
 N == Len(Alphabet)
 LineOf(k) == Alphabet[k].ln
@@ -64,8 +64,10 @@ ErrorAtLastLine == Judged /\ entry # "tags" => (Out.k = "error" => Out.n = Len(s
 \* the strict forms: TLC must find the known defects (checked by the driver in a second, expected-to-fail run)
 NoCrashStrict == Judged => Out.k # "crash"
 
-Emit == Judged => PrintT(<<"CASE", ToJson([e |-> entry, s |-> Codes(seq), k |-> Out.k, n |-> Out.n, why |-> Out.why,
-                                            site |-> Out.site, kf |-> KnownCrash(entry, Out) \/ KF_C05_7(entry, Out)])>>)
+RECURSIVE Hash(_,_)
+Hash(s, j) == IF j > Len(s) THEN 0 ELSE s[j] * (2 * j + 1) + Hash(s, j + 1)
+Emitted == Judged /\ (Len(seq) < MaxLen \/ EmitMod = 1 \/ Hash(seq, 1) % EmitMod = 0)
+Emit == Emitted => PrintT(<<"CASE", entry, Codes(seq), Out.k, Out.n, Out.why, Out.site, KnownCrash(entry, Out) \/ KF_C05_7(entry, Out)>>)
 EmitAlphabet == ph = "start" => PrintT(<<"ALPHA", ToJson(Alphabet)>>)
 
 \* ------------------------------------------------------------ alphabets
